@@ -187,7 +187,72 @@ def check(spec, ctx):
         ctx.fail("evaluation_task is not sound_event_detection", spec, ev.evaluation_task, None, kind="task")
 
 
+@st.composite
+def enclosed_case(draw):
+    """A traced contour that closes on itself (a frequency-modulated call drawn as a ring, a figure of eight, two arcs) and a short event
+    in the middle of the area it encloses, many buffers away from the line: the two do not overlap."""
+    W = draw(st.sampled_from([0.5, 1.0, 2.0]))
+    H = draw(st.sampled_from([4000.0, 8000.0]))
+    t0 = draw(st.sampled_from([0.5, 2.0, 10.0]))
+    f0 = draw(st.sampled_from([1000.0, 5000.0]))
+    shape = draw(st.sampled_from(["rectangle", "diamond", "two_arcs", "hexagon"]))
+    inner = draw(st.sampled_from(["box", "interval_like_box", "tiny_box"]))
+    return {"W": W, "H": H, "t0": t0, "f0": f0, "shape": shape, "inner": inner, "line_is_annotation": draw(st.booleans()), "extra_pair": draw(st.booleans()), "score": draw(st.sampled_from([0.25, 0.5, 1.0]))}
+
+
+def check_enclosed(spec, ctx):
+    import shapely
+    from shapely import affinity as saff
+    from soundevent import data
+    from soundevent.evaluation import sound_event_detection
+
+    W, H, t0, f0 = spec["W"], spec["H"], spec["t0"], spec["f0"]
+    if spec["shape"] not in ("rectangle", "diamond", "two_arcs", "hexagon") or W < 0.5 or H < 4000 or spec["inner"] not in ("box", "interval_like_box", "tiny_box"):
+        raise ValueError("malformed spec")
+    a, b, c, d = t0, t0 + W, f0, f0 + H
+    tm, fm = (a + b) / 2, (c + d) / 2
+    if spec["shape"] == "rectangle":
+        line = data.LineString(coordinates=[[a, c], [a, d], [b, d], [b, c], [a, c]])
+    elif spec["shape"] == "diamond":
+        line = data.LineString(coordinates=[[a, fm], [tm, d], [b, fm], [tm, c], [a, fm]])
+    elif spec["shape"] == "hexagon":
+        line = data.LineString(coordinates=[[a, fm], [a + W / 4, d], [b - W / 4, d], [b, fm], [b - W / 4, c], [a + W / 4, c], [a, fm]])
+    else:
+        line = data.MultiLineString(coordinates=[[[a, fm], [tm, d], [b, fm]], [[a, fm], [tm, c], [b, fm]]])
+    w, h = {"box": (W / 10, H / 10), "interval_like_box": (W / 10, H / 40), "tiny_box": (W / 100, H / 100)}[spec["inner"]]
+    inner = data.BoundingBox(coordinates=[tm - w / 2, fm - h / 2, tm + w / 2, fm + h / 2])
+    # independent statement of "they do not overlap": in units of the default buffers (0.01 s, 100 Hz) the line and the box are more than
+    # 8 apart (a mitre join reaches at most ~5 buffers beyond a vertex)
+    sl = saff.scale(shapely.geometry.shape({"type": line.type, "coordinates": line.coordinates}), 100.0, 0.01, origin=(0, 0))
+    sb = saff.scale(shapely.box(*inner.coordinates), 100.0, 0.01, origin=(0, 0))
+    if sl.distance(sb) <= 8:
+        raise ValueError("malformed spec: the inner event must be far from the line")
+    rec = data.Recording(uuid=evalgen._uid(1), path="r.wav", duration=100.0, channels=1, samplerate=44100)
+    clip = data.Clip(uuid=evalgen._uid(2), recording=rec, start_time=0.0, end_time=30.0)
+    ta, tb_ = data.Tag(term=data.term_from_key("species"), value="a"), data.Tag(term=data.term_from_key("species"), value="b")
+    g_ann, g_pred = (line, inner) if spec["line_is_annotation"] else (inner, line)
+    anns = [data.SoundEventAnnotation(uuid=evalgen._uid(10), sound_event=data.SoundEvent(uuid=evalgen._uid(11), recording=rec, geometry=g_ann), tags=[ta], created_on="2020-01-01T00:00:00")]
+    preds = [data.SoundEventPrediction(uuid=evalgen._uid(20), sound_event=data.SoundEvent(uuid=evalgen._uid(21), recording=rec, geometry=g_pred), score=spec["score"], tags=[data.PredictedTag(tag=ta, score=spec["score"])])]
+    if spec["extra_pair"]:
+        far = data.BoundingBox(coordinates=[20.0, 100.0, 21.0, 900.0])
+        anns.append(data.SoundEventAnnotation(uuid=evalgen._uid(12), sound_event=data.SoundEvent(uuid=evalgen._uid(13), recording=rec, geometry=far), tags=[tb_], created_on="2020-01-01T00:00:00"))
+        preds.append(data.SoundEventPrediction(uuid=evalgen._uid(22), sound_event=data.SoundEvent(uuid=evalgen._uid(23), recording=rec, geometry=far), score=0.5, tags=[data.PredictedTag(tag=tb_, score=0.5)]))
+    ca = data.ClipAnnotation(uuid=evalgen._uid(30), clip=clip, sound_events=anns, created_on="2020-01-01T00:00:00")
+    cp = data.ClipPrediction(uuid=evalgen._uid(31), clip=clip, sound_events=preds)
+    ctx.case(spec, nontrivial=True, labels=[spec["shape"], spec["inner"], "line=annotation" if spec["line_is_annotation"] else "line=prediction"])
+    ev = ctx.call(spec, "sound_event_detection(contour enclosing an event)", sound_event_detection, [cp], [ca], [ta, tb_])
+    if len(ev.clip_evaluations) != 1:
+        ctx.fail(f"{len(ev.clip_evaluations)} clip evaluations for one clip", spec, len(ev.clip_evaluations), 1, kind="clip_set")
+    for m in ev.clip_evaluations[0].matches:
+        if m.source is not None and m.target is not None and {m.source.uuid, m.target.uuid} == {preds[0].uuid, anns[0].uuid}:
+            ctx.fail(f"the event inside the area enclosed by the {spec['shape']} contour is paired with the contour (affinity {m.affinity}, score {m.score}) although the two are more than 8 buffers apart", spec, [m.affinity, m.score], "unpaired", kind="paired_without_overlap")
+    seen = sorted(str(x.uuid) for m in ev.clip_evaluations[0].matches for x in (m.source, m.target) if x is not None)
+    if seen != sorted(str(x.uuid) for x in anns + preds):
+        ctx.fail("not every sound event appears in exactly one match", spec, seen, None, kind="cover")
+
+
 SUBS = [
+    Sub("enclosed_events", check_enclosed, strategy=enclosed_case, quick=160, thorough=2000, min_nontrivial=0.0),
     Sub("many_events", check, strategy=many_case, quick=20, thorough=400, min_nontrivial=0.0),
     Sub("detection_reference", check, strategy=case, quick=2000, thorough=60000, min_nontrivial=0.05),
 ]
